@@ -453,7 +453,10 @@ SEQUENCE_encode_oer(const asn_TYPE_descriptor_t *td,
             }
         }
 
-        asn_put_aligned_flush(&preamble);
+        if(asn_put_aligned_flush(&preamble) < 0) {
+            /* The output callback refused the data */
+            ASN__ENCODE_FAILED;
+        }
         computed_size += preamble.flushed_bytes;
     }   /* if(preamble_bits) */
 
@@ -532,7 +535,9 @@ SEQUENCE_encode_oer(const asn_TYPE_descriptor_t *td,
         }
         if(ret < 0) ASN__ENCODE_FAILED;
 
-        asn_put_aligned_flush(&extadds);
+        if(asn_put_aligned_flush(&extadds) < 0) {
+            ASN__ENCODE_FAILED;
+        }
         computed_size += extadds.flushed_bytes;
 
         /* Now, encode extensions */
